@@ -55,6 +55,7 @@ type dut struct {
 	diskIdx   int                // index of the disk layer's state in chain
 	oplog     []string
 	bad       bool
+	closed    bool // closed by the reopen check
 }
 
 // fpTrienodeTail: Recover of a root reported recoverable fails AFTER the state has been
@@ -62,9 +63,24 @@ type dut struct {
 // tail above the target and truncateFromHead(trienode) rejects the target. Observed on the
 // unchanged tree; reported as a suspected genuine defect. The case ends there (the database
 // is half rolled back) but the run continues.
-const fpTrienodeTail = "C17:recover-failed:trienode-history-tail-above-target"
+const fpTrienodeTail = "recover-failed:trienode-history-tail-above-target"
 
 var otherViolations atomic.Int64
+
+// trienodeTailAbove recognises exactly the known failure: truncateFromHead of the trienode
+// freezer rejected the rollback target because it lies below the freezer's tail.
+func trienodeTailAbove(err error, target int) bool {
+	msg := err.Error()
+	i := strings.Index(msg, "history head truncation out of range, trienode, tail: ")
+	if i < 0 {
+		return false
+	}
+	var tailID, headID, tgt int
+	if n, _ := fmt.Sscanf(msg[i:], "history head truncation out of range, trienode, tail: %d, head: %d, target: %d", &tailID, &headID, &tgt); n != 3 {
+		return false
+	}
+	return tgt == target && tgt < tailID
+}
 
 func (d *dut) head() *statehist.State { return d.chain[len(d.chain)-1] }
 
@@ -95,7 +111,7 @@ func (d *dut) extend(n int, rng *rand.Rand) bool {
 		e := d.h.DeriveFresh(d.head(), rng)
 		id := len(d.chain)
 		if err := d.db.Update(e.Child.Root, e.Parent.Root, uint64(id), e.NodeSet(), e.StateSet(d.cfg.RawKeys)); err != nil {
-			d.viol("C17:update-failed", fmt.Sprintf("Update to state id %d failed: %v", id, err), nil)
+			d.viol("update-failed", fmt.Sprintf("Update to state id %d failed: %v", id, err), nil)
 			return false
 		}
 		d.chain = append(d.chain, e.Child)
@@ -112,7 +128,7 @@ func (d *dut) commitHead() bool {
 		return true
 	}
 	if err := d.db.Commit(d.head().Root, false); err != nil {
-		d.viol("C17:commit-failed", fmt.Sprintf("Commit(head id %d) failed: %v", len(d.chain)-1, err), nil)
+		d.viol("commit-failed", fmt.Sprintf("Commit(head id %d) failed: %v", len(d.chain)-1, err), nil)
 		return false
 	}
 	d.diskIdx = len(d.chain) - 1
@@ -154,16 +170,16 @@ func (d *dut) checkRecoverable() []int {
 	first, last, ok := d.histRange()
 	var rec []int
 	if ok && last != d.diskIdx {
-		d.viol("C17:history-head", fmt.Sprintf("newest state history has id %d but the disk layer has id %d", last, d.diskIdx), nil)
+		d.viol("history-head", fmt.Sprintf("newest state history has id %d but the disk layer has id %d", last, d.diskIdx), nil)
 	}
 	for i, st := range d.chain {
 		want := ok && i >= first-1 && i <= d.diskIdx-1
 		got := d.db.Recoverable(st.Root)
 		d.r.Count("recoverable_checks", 1)
 		if got != want {
-			fp := "C17:recoverable:false-negative"
+			fp := "recoverable:false-negative"
 			if got {
-				fp = "C17:recoverable:false-positive"
+				fp = "recoverable:false-positive"
 			}
 			d.viol(fp, fmt.Sprintf("Recoverable(canonical id %d) = %v, want %v (histories %d..%d ok=%v, disk id %d)", i, got, want, first, last, ok, d.diskIdx), nil)
 		}
@@ -174,11 +190,11 @@ func (d *dut) checkRecoverable() []int {
 	for _, st := range d.abandoned {
 		d.r.Count("recoverable_checks_abandoned", 1)
 		if d.db.Recoverable(st.Root) {
-			d.viol("C17:recoverable:abandoned-fork", fmt.Sprintf("Recoverable(root of abandoned fork, model state %d) = true", st.ID), nil)
+			d.viol("recoverable:abandoned-fork", fmt.Sprintf("Recoverable(root of abandoned fork, model state %d) = true", st.ID), nil)
 		}
 	}
 	if d.db.Recoverable(common.Hash{0xde, 0xad}) {
-		d.viol("C17:recoverable:unknown-root", "Recoverable(unknown root) = true", nil)
+		d.viol("recoverable:unknown-root", "Recoverable(unknown root) = true", nil)
 	}
 	return rec
 }
@@ -191,12 +207,12 @@ type acctReader interface {
 func (d *dut) readAll(st *statehist.State, ctx string) {
 	sr, err := d.db.StateReader(st.Root)
 	if err != nil {
-		d.viol("C17:"+ctx+":state-unavailable", fmt.Sprintf("StateReader(state id of root %x): %v", st.Root, err), nil)
+		d.viol(""+ctx+":state-unavailable", fmt.Sprintf("StateReader(state id of root %x): %v", st.Root, err), nil)
 		return
 	}
 	nr, err := d.db.NodeReader(st.Root)
 	if err != nil {
-		d.viol("C17:"+ctx+":state-unavailable", fmt.Sprintf("NodeReader: %v", err), nil)
+		d.viol(""+ctx+":state-unavailable", fmt.Sprintf("NodeReader: %v", err), nil)
 		return
 	}
 	n := 0
@@ -204,7 +220,7 @@ func (d *dut) readAll(st *statehist.State, ctx string) {
 		got, err := sr.(acctReader).AccountRLP(k)
 		n++
 		if err != nil || !bytes.Equal(got, st.Account(k)) {
-			d.viol("C17:"+ctx+":account", fmt.Sprintf("account %x: got %x err %v want %x", k, got, err, st.Account(k)), nil)
+			d.viol(""+ctx+":account", fmt.Sprintf("account %x: got %x err %v want %x", k, got, err, st.Account(k)), nil)
 			return
 		}
 	}
@@ -212,7 +228,7 @@ func (d *dut) readAll(st *statehist.State, ctx string) {
 		got, err := sr.Storage(k.Addr, k.Slot)
 		n++
 		if err != nil || !bytes.Equal(got, st.Storage(k.Addr, k.Slot)) {
-			d.viol("C17:"+ctx+":storage", fmt.Sprintf("slot %x/%x: got %x err %v want %x", k.Addr, k.Slot, got, err, st.Storage(k.Addr, k.Slot)), nil)
+			d.viol(""+ctx+":storage", fmt.Sprintf("slot %x/%x: got %x err %v want %x", k.Addr, k.Slot, got, err, st.Storage(k.Addr, k.Slot)), nil)
 			return
 		}
 	}
@@ -222,14 +238,14 @@ func (d *dut) readAll(st *statehist.State, ctx string) {
 		if want == nil {
 			hs := d.h.NodeHashesAt(k)
 			if got, err := nr.Node(k.Owner, []byte(k.Path), hs[0]); err == nil && len(got) > 0 {
-				d.viol("C17:"+ctx+":node-absent", fmt.Sprintf("node %x/%x must not exist but a blob was returned", k.Owner, k.Path), nil)
+				d.viol(""+ctx+":node-absent", fmt.Sprintf("node %x/%x must not exist but a blob was returned", k.Owner, k.Path), nil)
 				return
 			}
 			continue
 		}
 		got, err := nr.Node(k.Owner, []byte(k.Path), common.BytesToHash(refmpt.Keccak(want)))
 		if err != nil || !bytes.Equal(got, want) {
-			d.viol("C17:"+ctx+":node", fmt.Sprintf("node %x/%x: err %v", k.Owner, k.Path, err), nil)
+			d.viol(""+ctx+":node", fmt.Sprintf("node %x/%x: err %v", k.Owner, k.Path, err), nil)
 			return
 		}
 	}
@@ -272,7 +288,7 @@ func (d *dut) tryUnrecoverable(rng *rand.Rand, first int, histOK bool) {
 		}
 		before := d.digest()
 		var err error
-		if d.r.Guard("C17:recover-unrecoverable", map[string]any{"config": d.cfg, "ops": tail(d.oplog, 40), "kind": c.kind}, func() { err = d.db.Recover(c.root) }) {
+		if d.r.Guard("recover-unrecoverable", map[string]any{"config": d.cfg, "ops": tail(d.oplog, 40), "kind": c.kind}, func() { err = d.db.Recover(c.root) }) {
 			d.bad = true
 			otherViolations.Add(1)
 			return
@@ -281,11 +297,11 @@ func (d *dut) tryUnrecoverable(rng *rand.Rand, first int, histOK bool) {
 		d.r.Count("unrecoverable_attempts_"+c.kind, 1)
 		d.logf("recover(%s) -> %v", c.kind, err)
 		if err == nil {
-			d.viol("C17:unrecoverable-accepted:"+c.kind, fmt.Sprintf("Recover(%s root %x) returned nil although Recoverable is false", c.kind, c.root), nil)
+			d.viol("unrecoverable-accepted:"+c.kind, fmt.Sprintf("Recover(%s root %x) returned nil although Recoverable is false", c.kind, c.root), nil)
 			return
 		}
 		if before != after {
-			d.viol("C17:unrecoverable-changed-state:"+c.kind, fmt.Sprintf("Recover(%s root) failed (%v) but changed the database: %s -> %s", c.kind, err, before, after), nil)
+			d.viol("unrecoverable-changed-state:"+c.kind, fmt.Sprintf("Recover(%s root) failed (%v) but changed the database: %s -> %s", c.kind, err, before, after), nil)
 			return
 		}
 	}
@@ -309,18 +325,18 @@ func (d *dut) recoverTo(t int, rng *rand.Rand) (where string, ok bool) {
 	target := d.chain[t]
 	d.logf("recover to id %d (disk id %d, head id %d, buffer layers %d, frozen %v)", t, d.diskIdx, len(d.chain)-1, before.bufLayers, before.frozen)
 	var err error
-	if d.r.Guard("C17:recover", map[string]any{"config": d.cfg, "ops": tail(d.oplog, 40), "target_id": t}, func() { err = d.db.Recover(target.Root) }) {
+	if d.r.Guard("recover", map[string]any{"config": d.cfg, "ops": tail(d.oplog, 40), "target_id": t}, func() { err = d.db.Recover(target.Root) }) {
 		d.bad = true
 		otherViolations.Add(1)
 		return where, false
 	}
 	if err != nil {
-		if d.cfg.TrieHist > 0 && strings.Contains(err.Error(), "truncation out of range") && strings.Contains(err.Error(), "trienode") {
+		if d.cfg.TrieHist > 0 && trienodeTailAbove(err, t) {
 			d.r.Count("recover_failed_trienode_tail", 1)
 			d.viol(fpTrienodeTail, fmt.Sprintf("Recover(canonical id %d, reported recoverable, depth %d, stateHistory=%d trienodeHistory=%d) failed after reverting: %v", t, depth, d.cfg.StateHist, d.cfg.TrieHist, err), nil)
 			return where, false
 		}
-		d.viol("C17:recover-failed", fmt.Sprintf("Recover(canonical id %d, reported recoverable, %s) failed: %v", t, where, err), nil)
+		d.viol("recover-failed", fmt.Sprintf("Recover(canonical id %d, reported recoverable, %s) failed: %v", t, where, err), nil)
 		return where, false
 	}
 	d.abandoned = append(d.abandoned, d.chain[t+1:]...)
@@ -329,12 +345,12 @@ func (d *dut) recoverTo(t int, rng *rand.Rand) (where string, ok bool) {
 	// 1. the tree consists of the single disk layer of the target
 	after := d.shape()
 	if after.base != target.Root || after.layers != 1 {
-		d.viol("C17:after-recover:tree", fmt.Sprintf("after Recover the tree has base %x (%d layers), want single layer %x", after.base, after.layers, target.Root), nil)
+		d.viol("after-recover:tree", fmt.Sprintf("after Recover the tree has base %x (%d layers), want single layer %x", after.base, after.layers, target.Root), nil)
 		return where, false
 	}
 	for _, st := range d.abandoned[max(0, len(d.abandoned)-8):] {
 		if _, err := d.db.StateReader(st.Root); err == nil {
-			d.viol("C17:after-recover:newer-state-readable", fmt.Sprintf("state %d of the reverted suffix is still readable", st.ID), nil)
+			d.viol("after-recover:newer-state-readable", fmt.Sprintf("state %d of the reverted suffix is still readable", st.ID), nil)
 			return where, false
 		}
 	}
@@ -345,29 +361,29 @@ func (d *dut) recoverTo(t int, rng *rand.Rand) (where string, ok bool) {
 	}
 	// 3. persistent state id: persisted id + transitions still in the write buffer == id(R)
 	if err := d.db.VerifWaitFlush(); err != nil {
-		d.viol("C17:after-recover:flush-error", fmt.Sprintf("background flush failed: %v", err), nil)
+		d.viol("after-recover:flush-error", fmt.Sprintf("background flush failed: %v", err), nil)
 		return where, false
 	}
 	pid := int(rawdb.ReadPersistentStateID(d.disk))
 	if pid+after.bufLayers != t {
-		d.viol("C17:after-recover:persistent-id", fmt.Sprintf("persistent state id %d + %d buffered transitions != target id %d", pid, after.bufLayers, t), nil)
+		d.viol("after-recover:persistent-id", fmt.Sprintf("persistent state id %d + %d buffered transitions != target id %d", pid, after.bufLayers, t), nil)
 		return where, false
 	}
 	// 4. histories newer than the target are gone
 	first, last, hok := d.histRange()
 	if hok && last != t {
-		d.viol("C17:after-recover:history-head", fmt.Sprintf("newest state history is %d after Recover to id %d (first %d)", last, t, first), nil)
+		d.viol("after-recover:history-head", fmt.Sprintf("newest state history is %d after Recover to id %d (first %d)", last, t, first), nil)
 		return where, false
 	}
 	// 5. raw key spaces when nothing is buffered
 	if after.bufLayers == 0 {
 		d.r.Count("raw_compare_direct", 1)
 		if diff := target.DiffRaw(statehist.ScanRaw(d.disk), 6); len(diff) > 0 {
-			d.viol("C17:after-recover:raw", fmt.Sprintf("raw flat/node key spaces differ from the target state right after Recover: %v", diff), nil)
+			d.viol("after-recover:raw", fmt.Sprintf("raw flat/node key spaces differ from the target state right after Recover: %v", diff), nil)
 			return where, false
 		}
 		if pid != t {
-			d.viol("C17:after-recover:persistent-id", fmt.Sprintf("persistent state id %d != target id %d with empty buffer", pid, t), nil)
+			d.viol("after-recover:persistent-id", fmt.Sprintf("persistent state id %d != target id %d with empty buffer", pid, t), nil)
 			return where, false
 		}
 	}
@@ -381,16 +397,16 @@ func (d *dut) rawAfterCommit(n int, rng *rand.Rand) bool {
 		return false
 	}
 	if err := d.db.VerifWaitFlush(); err != nil {
-		d.viol("C17:flush-error", fmt.Sprintf("background flush failed: %v", err), nil)
+		d.viol("flush-error", fmt.Sprintf("background flush failed: %v", err), nil)
 		return false
 	}
 	d.r.Count("raw_compare_after_commit", 1)
 	if diff := d.head().DiffRaw(statehist.ScanRaw(d.disk), 6); len(diff) > 0 {
-		d.viol("C17:raw-after-commit", fmt.Sprintf("after rollback, a new fork of %d transitions and Commit the raw key spaces differ from the head state: %v", n, diff), nil)
+		d.viol("raw-after-commit", fmt.Sprintf("after rollback, a new fork of %d transitions and Commit the raw key spaces differ from the head state: %v", n, diff), nil)
 		return false
 	}
 	if pid := int(rawdb.ReadPersistentStateID(d.disk)); pid != len(d.chain)-1 {
-		d.viol("C17:persistent-id-after-commit", fmt.Sprintf("persistent state id %d, head id %d", pid, len(d.chain)-1), nil)
+		d.viol("persistent-id-after-commit", fmt.Sprintf("persistent state id %d, head id %d", pid, len(d.chain)-1), nil)
 		return false
 	}
 	d.readAll(d.head(), "after-commit")
@@ -416,18 +432,28 @@ func historyCase(r *vrt.Run, idx, maxLayers int) {
 	r.Case("history %d cfg=%+v", idx, cfg)
 	d := &dut{r: r, cfg: cfg, dir: filepath.Join(r.Scratch, fmt.Sprintf("hist-%d", idx))}
 	os.RemoveAll(d.dir)
-	disk, err := rawdb.Open(rawdb.NewMemoryDatabase(), rawdb.OpenOptions{Ancient: d.dir})
+	// every 5th history lives on a pebble store and ends with a close-and-reopen check
+	persistent := idx%5 == 2 && !r.Race()
+	var disk ethdb.Database
+	var err error
+	if persistent {
+		disk, err = openPebble(d.dir)
+	} else {
+		disk, err = rawdb.Open(rawdb.NewMemoryDatabase(), rawdb.OpenOptions{Ancient: d.dir})
+	}
 	if err != nil {
 		r.Inconclusive("cannot open database: %v", err)
 		return
 	}
 	d.disk = disk
-	d.db = pathdb.New(disk, &pathdb.Config{
-		WriteBufferSize: cfg.Buffer, NoAsyncFlush: !cfg.Async, NoAsyncGeneration: true,
-		TrieCleanSize: cfg.Clean, StateCleanSize: cfg.Clean,
-		StateHistory: cfg.StateHist, TrienodeHistory: cfg.TrieHist,
-	}, false)
-	defer func() { d.db.Close(); disk.Close(); os.RemoveAll(d.dir) }()
+	d.db = pathdb.New(disk, pathConfig(cfg), false)
+	defer func() {
+		if !d.closed {
+			d.db.Close()
+			disk.Close()
+		}
+		os.RemoveAll(d.dir)
+	}()
 	d.h = statehist.New(statehist.Config{Accounts: cfg.Accounts, Slots: cfg.Slots, BigValues: cfg.BigValues}, rng)
 	d.chain = []*statehist.State{d.h.Genesis()}
 
@@ -516,6 +542,12 @@ rounds:
 	if d.bad {
 		return
 	}
+	if persistent && !ended {
+		d.reopenCheck(rng, idx%50 == 7)
+		if d.bad {
+			return
+		}
+	}
 	ws := ""
 	for _, w := range []string{"in-buffer", "buffer-boundary", "disk", "in-buffer+frozen", "buffer-boundary+frozen", "disk+frozen"} {
 		if wheres[w] {
@@ -566,6 +598,10 @@ func run(r *vrt.Run) {
 		}
 	}
 	pathdb.VerifSetMaxDiffLayers(128)
+	if !r.Race() {
+		r.Require("reopen_checks_ok", 10)
+		r.Require("reopen_after_recover", 8)
+	}
 	r.Require("histories", 20)
 	r.Require("recovers", 100)
 	r.Require("recover_in-buffer", 5)
